@@ -119,6 +119,35 @@ func c15YAML(scs []c15Scenario, rows int, plainPost bool) (string, string) {
 	return b.String(), csv.String()
 }
 
+// c15HCL renders the same description in HCL.
+func c15HCL(scs []c15Scenario, plainPost bool) string {
+	var b strings.Builder
+	b.WriteString("variable_source \"users\" \"file/csv\" {\n  file              = \"/ammo/users.csv\"\n  fields            = [\"id\", \"name\"]\n  ignore_first_line = true\n  delimiter         = \",\"\n}\n")
+	for i := range scs {
+		p := fmt.Sprintf("s%d", i)
+		fmt.Fprintf(&b, "request \"%s_auth\" {\n  method = \"POST\"\n  uri    = \"/%s/auth\"\n  tag    = \"a%d\"\n  headers = {\n    Content-Type = \"application/json\"\n  }\n  body = <<EOF\n{\"uid\": {{.request.%s_auth.preprocessor.uid}}}\nEOF\n", p, p, i, p)
+		b.WriteString("  preprocessor {\n    mapping = {\n      uid = \"source.users[next].id\"\n    }\n  }\n")
+		b.WriteString("  postprocessor \"var/jsonpath\" {\n    mapping = {\n      token = \"$.token\"\n    }\n  }\n  postprocessor \"var/header\" {\n    mapping = {\n      trace = \"X-Trace\"\n    }\n  }\n  postprocessor \"assert/response\" {\n    status_code = 200\n  }\n}\n")
+		fmt.Fprintf(&b, "request \"%s_list\" {\n  method = \"GET\"\n  uri    = \"/%s/list?t={{.request.%s_auth.postprocessor.token}}\"\n  tag    = \"l%d\"\n  headers = {\n    Authorization = \"Bearer {{.request.%s_auth.postprocessor.token}}\"\n    X-Trace-Echo  = \"{{.request.%s_auth.postprocessor.trace}}\"\n  }\n", p, p, p, i, p, p)
+		b.WriteString("  postprocessor \"var/jsonpath\" {\n    mapping = {\n      items = \"$.items\"\n    }\n  }\n  postprocessor \"assert/response\" {\n    status_code = 200\n  }\n}\n")
+		fmt.Fprintf(&b, "request \"%s_order\" {\n  method = \"POST\"\n  uri    = \"/%s/order?t={{.request.%s_auth.postprocessor.token}}\"\n  tag    = \"o%d\"\n  headers = {\n    Content-Type = \"application/json\"\n  }\n  body = <<EOF\n{\"item\": {{.request.%s_order.preprocessor.item}}}\nEOF\n", p, p, p, i, p)
+		fmt.Fprintf(&b, "  preprocessor {\n    mapping = {\n      item = \"request.%s_list.postprocessor.items[next]\"\n    }\n  }\n  postprocessor \"assert/response\" {\n    status_code = 200\n  }\n}\n", p)
+		fmt.Fprintf(&b, "request \"%s_plain\" {\n  method = \"GET\"\n  uri    = \"/%s/plain?t={{.request.%s_auth.postprocessor.token}}\"\n  tag    = \"p%d\"\n  headers = {\n    X-Trace-Echo = \"{{.request.%s_auth.postprocessor.trace}}\"\n  }\n", p, p, p, i, p)
+		if plainPost {
+			b.WriteString("  postprocessor \"assert/response\" {\n    status_code = 200\n  }\n")
+		}
+		b.WriteString("}\n")
+	}
+	for _, sc := range scs {
+		fmt.Fprintf(&b, "scenario \"%s\" {\n  weight           = %d\n  min_waiting_time = %d\n  requests         = [\n", sc.Name, sc.Weight, sc.MWT.Milliseconds())
+		for _, l := range sc.Lines {
+			fmt.Fprintf(&b, "    \"%s\",\n", l)
+		}
+		b.WriteString("  ]\n}\n")
+	}
+	return b.String()
+}
+
 type c15Auth struct {
 	Token, Trace string
 	UID          string
@@ -151,6 +180,13 @@ func runC15(r *R) {
 	invocations := ring * passes
 	plainPost := w.Draw(2) == 0
 	yaml, csv := c15YAML(scs, rows, plainPost)
+	descFile := "/ammo/scenario.yaml"
+	if w.Draw(4) == 0 {
+		// the same description written in HCL
+		yaml = c15HCL(scs, plainPost)
+		descFile = "/ammo/scenario.hcl"
+		r.Note("description:hcl")
+	}
 	lat := []time.Duration{100 * time.Microsecond, 2 * time.Millisecond, 15 * time.Millisecond}[w.Draw(3)]
 	// faults: per request arrival index
 	nfaults := 0
@@ -250,10 +286,10 @@ func runC15(r *R) {
 	target := "10.0.0.9:8080"
 	var tgt *httpTarget
 	res := runHTTPPool(r, httpPoolSpec{
-		Ammo:      map[string]interface{}{"type": "http/scenario", "file": "/ammo/scenario.yaml", "limit": invocations},
+		Ammo:      map[string]interface{}{"type": "http/scenario", "file": descFile, "limit": invocations},
 		Gun:       map[string]interface{}{"type": "http/scenario", "target": target},
 		Instances: inst, Tokens: invocations + 3,
-		Files: map[string][]byte{"/ammo/scenario.yaml": []byte(yaml), "/ammo/users.csv": []byte(csv)}, Horizon: 2 * time.Hour,
+		Files: map[string][]byte{descFile: []byte(yaml), "/ammo/users.csv": []byte(csv)}, Horizon: 2 * time.Hour,
 	}, func(nw *simnet.Net) { nw.Latency = lat }, func(nw *simnet.Net) { tgt = startHTTPTarget(nw, target, false, script) })
 	for k := range faulted {
 		r.Fault("target:"+faulted[k], true)
